@@ -36,6 +36,21 @@ def subharnesses(tier):
     # the placement
     for first in ('pd', 'pl1', 'pc'):
         subs.append(('run-loop-%s' % first, {'kind': 'run', 'first': first}))
+    if tier == 'thorough':
+        # six events per run instead of four
+        for first in ('pd', 'pl1', 'pl2'):
+            subs.append(('run-loop6-%s' % first,
+                         {'kind': 'run', 'first': first, 'nev': 6}))
+        # the vanishing file for every configuration of the first instance
+        for exp0 in (False, True):
+            for pl0 in (False, True):
+                for man0 in (False, True):
+                    if not (not exp0):
+                        subs.append(('a-%s%s%s-old-vanish2' % (
+                            'E' if exp0 else 'e', 'P' if pl0 else 'p',
+                            'M' if man0 else 'm'),
+                            {'a': [exp0, pl0, man0, 'old'],
+                             'fault': 'vanish'}))
     return subs
 
 
@@ -216,7 +231,7 @@ def _run_loop(S, spec):
             k = state['step']
             state['step'] = k + 1
             check(':loop%d' % k)
-            if k >= 4:
+            if k >= spec.get('nev', 4):
                 raise _StopLoop()
             kind = spec['first'] if k == 0 else \
                 kinds[S.choice('event_%d' % k, len(kinds))]
